@@ -90,14 +90,14 @@ PROPS["C06"]["tolerances"].update({
     "taupf/tauf": "model: 4 × running-error bound; tauf(taupf(tau)) = tau to 8 ε relative",
 })
 PROPS["C06"]["level_text"] = (
-    "Theorems (41, Props/C06.lean). (1) Wrapper, for EVERY first-quadrant kernel, over the exact binary64 model the driver executes (both classes): lat ↦ −lat gives "
+    "Theorems (44, Props/C06.lean). (1) Wrapper, for EVERY first-quadrant kernel, over the exact binary64 model the driver executes (both classes): lat ↦ −lat gives "
     "(x, −y, −γ, k) (except on the far-side equator, where the code's documented rule latsign = −1 applies), lon − lon0 ↦ −(lon − lon0) gives (−x, y, −γ, k), far side "
     "lon ↦ 180 − lon with ξ ↦ π − ξ resp. 2E − ξ and γ ↦ 180 − γ, Reverse mirrors these, the kernel is only called on the first quadrant, the wrapper is the identity up to "
     "scaling on first-quadrant input; with extendp = true there is no folding at all in Forward and in Reverse (tm_extendp_forward/reverse). (2) Series kernel as coded "
     "(TM.fwdKernel / TM.revKernel, the functions the driver runs in binary64, read at ℝ/ℂ): the complex Clenshaw pair returns F(ζ) = ζ + Σ c_j sin 2jζ and "
     "F'(ζ) = 1 + Σ 2j c_j cos 2jζ, and F' is the complex derivative of F (HasDerivAt); the Gauss–Schreiber step satisfies the spherical transverse Mercator relations "
     "(cos ξ' = cos λ/h, sin ξ' = τ'/h, sinh η' = sin λ/h, cosh η' = √(1+τ'²)/h, tan ξ' = τ'/cos λ, tanh η' = sin λ/√(1+τ'²)) and in closed form sin ζ' = tanh(ψ + iλ), "
-    "cos ζ'·cosh(ψ + iλ) = 1 (ζ' = gd(w), ψ = asinh τ'), and the coded γ', hypot(τ', cos λ) are arg and |·| of cosh w = (dζ'/dw)⁻¹; Forward returns ξ + iη = F(ζ'), "
+    "cos ζ'·cosh(ψ + iλ) = 1 (ζ' = gd(w), ψ = asinh τ'), the coded γ', hypot(τ', cos λ) are arg and |·| of cosh w, and every differentiable branch with these two identities has dζ'/dw = 1/cosh w (HasDerivAt); Forward returns ξ + iη = F(ζ'), "
     "γ = γ' − arg F'(ζ'), k = k'·b1·|F'(ζ')|; Reverse returns ζ' = G(ζ), γ = arg G'(ζ) + γ', k = b1/|G'(ζ)|·k' (pole branch included); Reverse's series step applied to "
     "Forward's is exactly G∘F; η = 0 ⇔ λ = 0 where Σ 2j|α_j| cosh 2jη' < 1; on the central meridian η = 0, ξ = χ + Σ α_j sin 2jχ (χ = atan τ'), γ = 0, k = k'·b1·dξ/dχ; "
     "the coefficients _alp[l], _bet[l] the constructor computes are the values at n of the certified polynomials (tm_coeffs_eval, every table). (3) Table certificates, "
@@ -108,7 +108,8 @@ PROPS["C06"]["level_text"] = (
     "K, E, KE are abstract): the Newton loop of zetainv/sigmainv returns the Newton iterate after `steps` steps, steps ≤ numit_ (read from the header on every run), an exit "
     "through the convergence test means that some iterate w_m (m + 2 ≤ numit_) has |dw/dζ|²·((τ'(w_m) − τ')²/(1+τ'²) + (λ(w_m) − λ)²) < tol2_/max(ψ,1)² (resp. "
     "|dw/dσ|²·|σ(w_m) − σ|² < tol2_), all earlier ones had not, and the result is the iterate two steps later; an exit at the cap is silent and means all corrections but "
-    "possibly the last were ≥ the tolerance. With the Jacobi functions abstract (only sn² + cn² = 1, dn² + k² sn² = 1 assumed; complex values defined by the addition "
+    "possibly the last were ≥ the tolerance; Forward takes the pole case exactly for lat = 90 and the branch-point case exactly at lat = 0 ∧ lon − lon0 = 90(1 − e), "
+    "Reverse the branch-point case exactly at ξ = 0 ∧ η = K' − E' and the pole output exactly for (u, v) = (K, 0) (tmx_forward_cases, tmx_reverse_cases). With the Jacobi functions abstract (only sn² + cn² = 1, dn² + k² sn² = 1 assumed; complex values defined by the addition "
     "theorem, for which the same relations are proved to persist): zeta is Lee 54.17 (τ' = sinh(atanh(sn u dn v) − e atanh(e sn u/dn v)); λ = arg(cn u cn v + i dn u sn v) "
     "− e arg(dn u cn v + i e cn u sn v), these being Re/Im of atanh(sn w) − e atanh(e sn w)), dwdzeta = cn w dn w/(1 − e²) (54.21), dwdsigma = dn² w/(1 − e²) (55.9), and "
     "the rewritings used in sigma and Scale. Correspondence: the wrapper model predicts the implementation's answer on general inputs from its own first-quadrant kernel "
@@ -121,7 +122,8 @@ PROPS["C06"]["level_text"] = (
     "inspectors, delegation of TransverseMercator(exact = true) incl. extendp and Reverse, constructor domain, UTM() instances, the TransverseMercatorProj tool against the API. "
     "Partial: the nanometre error bounds of the floating-point code and the size of the O(n⁷) remainder over ℝ are not theorems (covered by the oracle); that the Newton "
     "loops do leave through their convergence test, and everything about the elliptic functions themselves, is not proved (kernels); derivative consistency of zeta/sigma "
-    "with their coded Jacobians is proved only algebraically (as the Lee formulas), not as derivatives. Open finding F90 (exact form, e² ≤ 1e-4).")
+    "with their coded Jacobians is proved only algebraically (as the Lee formulas), not as derivatives. Open findings F90 (exact form, e² ≤ 1e-4: k'² recomputed with cancellation) and F91 (exact Reverse, e² ≥ 0.15: "
+    "sigmainv wanders / hits the iteration cap); both with a decidable class, a witness in the corpus and a candidate patch (design-probes/G06).")
 PROPS["C06"]["level_note"] = (
     "b1coeff/alpcoeff/betcoeff, the series order and TransverseMercatorExact::numit_ regenerated from the sources each run; hand-written wrapper model over the exact F64 "
     "softfloat; polymorphic (RealLike) models of the series kernel and of the whole exact form (zeta, dwdzeta, sigma, dwdsigma, zetainv0, sigmainv0, Newton loop, Scale, "
